@@ -74,7 +74,38 @@ type ReplicaSession struct {
 	Active          bool                                        // Whether the session is actively receiving WAL entries
 	LastActivity    time.Time                                   // Time of last activity
 	ListenerAddress string                                      // Network address (host:port) the replica is listening on
-	mu              sync.Mutex                                  // Protects session state
+	mu              sync.Mutex                                  // Protects session state; never held while sending
+	sendMu          sync.Mutex                                  // Serialises sends on Stream; the only lock held while the transport may block
+	outbox          chan *proto.WALStreamResponse               // Pushes from the write path, sent by the session's StreamWAL goroutine (nil if there is none)
+}
+
+// sessionOutboxSize bounds the pushes queued for one replica. When a replica
+// is slower than the writers the excess is dropped; the replica notices the
+// gap, or the periodic catch-up does, and the entries are read from the log.
+const sessionOutboxSize = 64
+
+// transmit sends a response on the session's stream. A send blocks for as long
+// as the replica does not read (flow control), possibly forever, so no lock
+// that the write path, the heartbeat monitor or another session needs is held
+// across it.
+func (s *ReplicaSession) transmit(response *proto.WALStreamResponse) error {
+	s.sendMu.Lock()
+	err := s.Stream.Send(response)
+	s.sendMu.Unlock()
+
+	if err == nil {
+		s.mu.Lock()
+		s.LastActivity = time.Now()
+		s.mu.Unlock()
+	}
+	return err
+}
+
+// alive reports whether the session is still considered connected
+func (s *ReplicaSession) alive() bool {
+	s.mu.Lock()
+	defer s.mu.Unlock()
+	return s.Connected && s.Active
 }
 
 // NewPrimary creates a new primary node for replication
@@ -253,6 +284,7 @@ func (p *Primary) StreamWAL(
 		Active:          true,
 		LastActivity:    time.Now(),
 		ListenerAddress: listenerAddress,
+		outbox:          make(chan *proto.WALStreamResponse, sessionOutboxSize),
 	}
 
 	// Determine compression support
@@ -305,12 +337,29 @@ func (p *Primary) StreamWAL(
 		case <-ctx.Done():
 			// Context was canceled, exit
 			return ctx.Err()
+		case response := <-session.outbox:
+			// An entry pushed by the write path
+			if err := session.transmit(response); err != nil {
+				log.Error("Error sending to replica %s: %v", session.ID, err)
+				session.mu.Lock()
+				session.Connected = false
+				session.mu.Unlock()
+				return status.Errorf(codes.Unavailable, "failed to send to replica: %v", err)
+			}
 		case <-ticker.C:
+			// The heartbeat monitor gave up on this session
+			if !session.alive() {
+				return status.Error(codes.Unavailable, "replica session timed out")
+			}
+
 			// Check if we have new entries to send
 			currentSeq := p.currentWAL().GetNextSequence() - 1
-			if currentSeq > session.LastAckSequence {
+			session.mu.Lock()
+			lastAck := session.LastAckSequence
+			session.mu.Unlock()
+			if currentSeq > lastAck {
 				log.Info("Checking for new entries: currentSeq=%d > lastAck=%d",
-					currentSeq, session.LastAckSequence)
+					currentSeq, lastAck)
 				if err := p.sendUpdatedEntries(session); err != nil {
 					log.Error("Failed to send updated entries: %v", err)
 					// Don't terminate the stream on error, just continue
@@ -322,12 +371,12 @@ func (p *Primary) StreamWAL(
 
 // sendUpdatedEntries sends any new WAL entries to the replica since its last acknowledged sequence
 func (p *Primary) sendUpdatedEntries(session *ReplicaSession) error {
-	// Take the mutex to safely read and update session state
+	// Get the next sequence number we should send. The session lock is not
+	// kept: reading the log takes the log's mutex, under which writers push
+	// to this session, and sending may block.
 	session.mu.Lock()
-	defer session.mu.Unlock()
-
-	// Get the next sequence number we should send
 	nextSequence := session.LastAckSequence + 1
+	session.mu.Unlock()
 
 	log.Info("Sending updated entries to replica %s starting from sequence %d",
 		session.ID, nextSequence)
@@ -366,13 +415,12 @@ func (p *Primary) sendUpdatedEntries(session *ReplicaSession) error {
 		Codec:      proto.CompressionCodec_NONE,
 	}
 
-	// Send to the replica (we're already holding the lock)
-	if err := session.Stream.Send(response); err != nil {
+	// Send to the replica
+	if err := session.transmit(response); err != nil {
 		return fmt.Errorf("failed to send entries: %w", err)
 	}
 
 	log.Info("Successfully sent %d entries to replica %s", len(protoEntries), session.ID)
-	session.LastActivity = time.Now()
 	return nil
 }
 
@@ -543,16 +591,24 @@ func (p *Primary) sendToReplica(session *ReplicaSession, response *proto.WALStre
 		}
 	}
 
-	// Acquire lock to send to the stream
-	session.mu.Lock()
-	defer session.mu.Unlock()
+	// This runs inside the write path (the log notifies its observers while
+	// the writer holds the log mutex and the storage lock): hand the response
+	// to the session's own goroutine and never wait for the replica.
+	if session.outbox != nil {
+		select {
+		case session.outbox <- clonedResponse:
+		default:
+			log.Warn("Replica %s is not keeping up, push dropped (it will catch up from the log)", session.ID)
+		}
+		return
+	}
 
-	// Send response through the gRPC stream
-	if err := session.Stream.Send(clonedResponse); err != nil {
+	// A session without a StreamWAL goroutine: send through the gRPC stream directly
+	if err := session.transmit(clonedResponse); err != nil {
 		log.Error("Error sending to replica %s: %v", session.ID, err)
+		session.mu.Lock()
 		session.Connected = false
-	} else {
-		session.LastActivity = time.Now()
+		session.mu.Unlock()
 	}
 }
 
@@ -594,14 +650,10 @@ func (p *Primary) sendInitialEntries(session *ReplicaSession) error {
 	}
 
 	// Send to the replica
-	session.mu.Lock()
-	defer session.mu.Unlock()
-
-	if err := session.Stream.Send(response); err != nil {
+	if err := session.transmit(response); err != nil {
 		return fmt.Errorf("failed to send initial entries: %w", err)
 	}
 
-	session.LastActivity = time.Now()
 	return nil
 }
 
@@ -636,14 +688,10 @@ func (p *Primary) resendEntries(session *ReplicaSession, fromSequence uint64) er
 	}
 
 	// Send to the replica
-	session.mu.Lock()
-	defer session.mu.Unlock()
-
-	if err := session.Stream.Send(response); err != nil {
+	if err := session.transmit(response); err != nil {
 		return fmt.Errorf("failed to resend entries: %w", err)
 	}
 
-	session.LastActivity = time.Now()
 	return nil
 }
 
@@ -773,11 +821,11 @@ func (p *Primary) getSessionIDFromContext(ctx context.Context) string {
 
 // updateSessionAck updates a session's acknowledged sequence
 func (p *Primary) updateSessionAck(sessionID string, ackSeq uint64) error {
-	p.mu.Lock()
-	defer p.mu.Unlock()
-
-	session, exists := p.sessions[sessionID]
-	if !exists {
+	// The sessions lock is only needed for the lookup; holding it (writers
+	// need it shared for every push) while waiting for the session would let
+	// one replica hold up the primary.
+	session := p.getSession(sessionID)
+	if session == nil {
 		return fmt.Errorf("session %s not found", sessionID)
 	}
 
